@@ -226,7 +226,8 @@ def slice_independence(rep, pid, tier):
         except Exception as e:   # noqa
             rep.violation("%s raised %r when the channel count changes" % (z["name"], e), {"api": z["name"], "check": "slice"})
             continue
-        for (N, C) in ([(2, 3), (1, 4)] if tier == "quick" else [(2, 3), (1, 4), (3, 1), (3, 2)]):
+        # (1, 19) / (5, 2): wide and deep batches (a channel- or batch-count threshold in the code shows only there)
+        for (N, C) in ([(2, 3), (1, 4), (1, 19), (5, 2)] if tier == "quick" else [(2, 3), (1, 4), (3, 1), (3, 2), (1, 19), (5, 2), (2, 35)]):
             x = torch.tensor(rng.integers(-8, 9, size=z["shape"](N, C)).astype(np.float64))
             outs = f(x)
             ok = len(outs) == len(outs1)
